@@ -54,6 +54,10 @@ func (v rsaverifier) Verify(msg []byte, sig signature.Signature) bool {
 	if sig.Code() != signature.RS256 {
 		return false
 	}
+	// the declared size must be the size of the raw signature that follows
+	if sig.Size() != uint64(len(sig.Raw())) {
+		return false
+	}
 
 	hash := sha256.New()
 	hash.Write(msg)
